@@ -83,7 +83,7 @@ PROPS["C06"] = dict(
     trusted_base=_CTL_TB, assumptions=_CTL_ASSUME + ["RetransTimeout x 256 fits int64"],
     level_text="Kernel-checked (Props/C06.lean) over Core.step: a request hitting a receive transaction is never dispatched (state unchanged, no driver call, output = "
                "cached response or nothing); keys differing in address or sequence never alias; expiry releases the entry; retention = T x (N+1) for all N in 0..255. "
-               "Tie: S-ctl 'trans' histories + exhaustive retention sweep on the real NewRxTransaction. retained_survives_tx_timeout — the retained response survives the expiry of a TRANSMIT transaction carrying the same address-sequence key (the two kinds share the key format). dups_replayed — ANY number of copies inside the window (beyond the retry count too) are answered from the cache, none executed, the transaction stays.",
+               "Tie: S-ctl 'trans' histories + exhaustive retention sweep on the real NewRxTransaction. retained_survives_tx_timeout — the retained response survives the expiry of a TRANSMIT transaction carrying the same address-sequence key (the two kinds share the key format). dups_replayed — ANY number of copies inside the window (beyond the retry count too) are answered from the cache, none executed, the transaction stays. retained_untouched / dup_after_any_history — no event other than a copy of the request itself or its own retention expiry (requests of other peers or other sequence numbers, whatever they do, responses, expiries of any other timer, reports) touches the retained response, so after ANY history of such events a copy is still answered with the very response the first copy got.",
     level_note="Trusted: Lean kernel; model of the loop body and transaction.go (checked against the code each run). Real timers are replaced by injected expiry events; "
                "'byte-identical' is modelled as 'the cached message' and checked on the wire by the harness (identical rendering of the replayed datagram).",
 )
@@ -117,10 +117,10 @@ PROPS["C01"] = dict(
 )
 PROPS["C05"] = dict(
     module="UpfVerif.Props.C05",
-    streams=[_ctl(4, "nodes")],
+    streams=[_ctl(4, "nodes"), dict(name="perio", shards=2, shards_thorough=6, seed_per_shard=True, timeout=600, timeout_thorough=3000)],
     rule="ctl profile 'nodes': several nodes and sessions with deliberately coinciding rule ids and CP SEIDs, SEID reuse after deletion, re-association, "
          "takeover (Modification with Node ID), SEID-0 report responses, reports",
-    trusted_base=_CTL_TB, assumptions=_CTL_ASSUME,
+    trusted_base=_CTL_TB + ["below the driver seam: the real perio.Server of the 'perio' stream (injected ticks), with the predicate 'removing one session's periodic URR leaves the registrations of every other session' (Driver/Perio.lean checkOthers)"], assumptions=_CTL_ASSUME,
     level_text="Kernel-checked (Props/C05.lean): driver calls of a Modification/Deletion Request carry the addressed SEID; the request rewrites only that session's "
                "slot (every other SEID resolves to the same value: rules, counters, queues); re-association touches only SEIDs in the node's own set; SEID-0 removal "
                "matches CP SEID and node address. Tie: S-ctl 'nodes' + frame predicates on the implementation's dumps. seid0_complete — the SEID-0 search finds a session with the answered request's control-plane SEID and the responder's address whenever one is live, however many sessions of other nodes carry the same control-plane SEID and wherever they sit in the table.",
